@@ -249,7 +249,7 @@ def run_case(case):
     cfg = {}
     for n, s, nd, b, poss in spec:
         if s and rng.random() < 0.5:
-            cfg[canon(n) + ("()" if nd else "")] = rng.choice([5, 40, 100, 300])
+            cfg[canon(n) + ("()" if nd else "")] = rng.choice([5, 40, 100, 300, 32, 32, 31, 33, 1])
     if rng.random() < 0.3:
         cfg["ZZ$"] = 77
     text = render(prog)
@@ -325,8 +325,10 @@ def run_case(case):
             else:
                 cls = "helper-variable"
             if not d or d[0][1] is None:
-                v("C10/string-size/missing/" + cls, name=ident, expected=want)
-            elif d[0][1][0] != "STRING" or d[0][1][1] != want:
+                # no explicit size: BASIC09 makes it 32 bytes - which is what is wanted when the configuration file says 32
+                if want != 32:
+                    v("C10/string-size/missing/" + cls, name=ident, expected=want)
+            elif d[0][1][0] != "STRING" or (d[0][1][1] if len(d[0][1]) > 1 else 32) != want:
                 v("C10/string-size/wrong/" + cls, name=ident, declared=d[0][1], expected=want)
     if case.get("sample"):
         obs["sample"] = {"source": text[:300], "storage": storage, "config": cfg, "expected_arrays": arrays, "expected_strings": strings}
